@@ -52,9 +52,9 @@ partial def pTD : P TD := fun cs =>
   | 'D' :: rest => some (.dur, rest)
   | 'I' :: '(' :: rest =>
     match pName rest with
-    | some (n, r) => (expect ')' r).map fun r' => (.iface n, r')
+    | some (n, r) => (expect ')' r).map fun r' => (.iface n.toUTF8.toList, r')
     | none => none
-  | '$' :: rest => (pName rest).map fun (n, r) => (.ref n, r)
+  | '$' :: rest => (pName rest).map fun (n, r) => (.ref n.toUTF8.toList, r)
   | 'M' :: rest =>
     let (gs, rest) := match rest with | 's' :: r => (true, r) | r => (false, r)
     match expect '(' rest with
@@ -126,7 +126,7 @@ def pEntry (s : String) : Option Entry :=
     let (name, ifs) := match lhs.splitOn "@" with
       | [n, l] => (n, l.splitOn ",")
       | _ => (lhs, [])
-    (pDef rhs.toList).map fun d => ⟨name, ifs, d⟩
+    (pDef rhs.toList).map fun d => ⟨name.toUTF8.toList, ifs.map (·.toUTF8.toList), d⟩
   | _ => none
 
 def pEnv (s : String) : Option Env :=
@@ -161,7 +161,7 @@ partial def pVal : P Val := fun cs =>
     match pName rest with
     | some (n, ':' :: r) =>
       match pVal r with
-      | some (v, '>' :: r') => some (.any n v, r')
+      | some (v, '>' :: r') => some (.any n.toUTF8.toList v, r')
       | _ => none
     | _ => none
   | 'm' :: g :: '(' :: rest =>
@@ -183,6 +183,8 @@ where
 def hexOf (bs : Bytes) : String :=
   String.ofList (bs.flatMap fun b => [nibble (b.toNat / 16), nibble (b.toNat % 16)])
 
+def nameStr (bs : Bytes) : String := String.ofList (bs.map fun b => Char.ofNat b.toNat)
+
 partial def showVal : Val → String
   | .u n => s!"u{n}"
   | .i z => s!"i{z}"
@@ -194,7 +196,7 @@ partial def showVal : Val → String
   | .nil => "~"
   | .list vs => "[" ++ ",".intercalate (vs.map showVal) ++ "]"
   | .struct vs => "{" ++ ";".intercalate (vs.map showVal) ++ "}"
-  | .any n v => "<" ++ n ++ ":" ++ showVal v ++ ">"
+  | .any n v => "<" ++ nameStr n ++ ":" ++ showVal v ++ ">"
   | .m gz v => (if gz then "m1(" else "m0(") ++ showVal v ++ ")"
 
 /-- same rendering with the goZero bit of marshaler nodes erased (the model
@@ -202,7 +204,7 @@ cannot recompute it after UnmarshalAmino). -/
 partial def showValNoGZ : Val → String
   | .list vs => "[" ++ ",".intercalate (vs.map showValNoGZ) ++ "]"
   | .struct vs => "{" ++ ";".intercalate (vs.map showValNoGZ) ++ "}"
-  | .any n v => "<" ++ n ++ ":" ++ showValNoGZ v ++ ">"
+  | .any n v => "<" ++ nameStr n ++ ":" ++ showValNoGZ v ++ ">"
   | .m _ v => "m(" ++ showValNoGZ v ++ ")"
   | v => showVal v
 
@@ -221,14 +223,14 @@ def hexE (bs : Bytes) : String := if bs.isEmpty then "e" else hexOf bs
 def runRT (name envS mvS : String) : String :=
   match pEnv envS, pVal mvS.toList with
   | some env, some (v, []) =>
-    match marshal env name v with
+    match marshal env name.toUTF8.toList v with
     | .error .badValue => "err:badop"
     | .error .unsupported => "err:badop"
     | .error _ => "err:enc"
     | .ok bz =>
       let rt :=
         if envHasMarsh env then "skip"
-        else match unmarshal env name bz with
+        else match unmarshal env name.toUTF8.toList bz with
           | some v' => if showVal v' == showVal v then "ok" else "bad"
           | none => "bad"
       hexE bz ++ " rt=" ++ rt
@@ -237,7 +239,7 @@ def runRT (name envS mvS : String) : String :=
 def runDec (name hexS envS : String) : String :=
   match pEnv envS, hexOpt hexS with
   | some env, some obz =>
-    match unmarshal env name (obz.getD []) with
+    match unmarshal env name.toUTF8.toList (obz.getD []) with
     | some v => "ok " ++ showVal v
     | none => "err"
   | _, _ => "err:badop"
